@@ -232,6 +232,7 @@ func checkC15(c *Ctx) {
 		sc.Config = spiceConfig(rng, sc.Config)
 		scs = append(scs, sc)
 	}
+	scs = append(scs, repeatedEntryScenarios()...)
 	refScenarioChecks(c, env, scs, false)
 }
 
